@@ -14,4 +14,34 @@ PROPS = {
         assumptions=["tag pieces return a 64-bit mix of (segment id, argument bits): two different (id, x) pairs "
                      "returning the same value (probability 2^-63 per comparison) would hide a wrong selection"],
     ),
+    "C03": dict(
+        kind=ONLINE,
+        rule=("cases = distinct (function, query history) pairs plus distinct explored functions; workload A runs "
+              "generated hostile histories (9 movement policies, 1..300 queries, 1e5 in thorough) through a fresh "
+              "PiecewiseEvaluator and checks every answer against the reference model and Piecewise::evaluate; "
+              "workload B explores the evaluator's reachable (cursor, last argument) states breadth-first to a "
+              "fixpoint (hook H1, hashing only) applying every critical query in every state; 'evaluations' counts "
+              "checked evaluator answers"),
+        assumptions=["hook H1 exposes the evaluator's complete mutable state (cursor offset, last argument); if a "
+                     "change adds state the fixpoint no longer covers all histories, workload A still applies",
+                     "tag-value collisions (2^-63 per comparison)"],
+    ),
+    "C12": dict(
+        kind=ONLINE,
+        rule=("cases = distinct (function, argument sequence) pairs plus functions whose ordered pairs of critical "
+              "queries were all explored; every output of evaluate_v is compared (bits) with the piece selected by "
+              "the reference model for the running maximum, and with Piecewise::evaluate while the sequence is "
+              "non-decreasing; the number of inputs pulled is compared with the number of outputs after every step"),
+        assumptions=["tag-value collisions (2^-63 per comparison)"],
+    ),
+    "C16": dict(
+        kind=ONLINE,
+        rule=("cases = distinct (function, history containing NaN/inf) pairs, explored functions with NaN in the "
+              "alphabet, and (function, argument list) pairs for direct evaluation / evaluate_v; plus the panic "
+              "sweep re-running the other drivers' workloads (sweep_ops) with only panics transferred; every "
+              "non-NaN evaluator answer after a NaN is compared bit for bit with the reference model and "
+              "Piecewise::evaluate"),
+        assumptions=["'well-formed finite input' is what the generators of the other drivers produce (finite knots, "
+                     "strictly increasing abscissae for the spline, non-empty non-NaN non-decreasing breakpoints)"],
+    ),
 }
